@@ -15,6 +15,7 @@ from collections.abc import Iterable
 from ..basic import Cut
 from ..choice import Choice
 from ..base import Box, Model, Rule
+from ..rulelike import BasedRule, RuleInclude
 from ..syntax import Call, Sequence
 from . import sccutils
 
@@ -46,12 +47,19 @@ def _callable_rule_ids(exp: Model, rule_index: dict[str, int]) -> list[int]:
     if isinstance(exp, Box):
         return _callable_rule_ids(exp.exp, rule_index)
 
+    if isinstance(exp, RuleInclude) and exp.exp is not None:
+        # note: >rule stands for the right hand side of the rule
+        return _callable_rule_ids(exp.exp, rule_index)
+
     return []
 
 
 def _is_nullable_safe(exp: Model) -> bool:
     if isinstance(exp, Call):
         return False
+
+    if isinstance(exp, RuleInclude) and exp.exp is not None:
+        return _is_nullable_safe(exp.exp)
 
     if isinstance(exp, Sequence):
         return all(_is_nullable_safe(item) for item in exp.sequence)
@@ -67,8 +75,10 @@ def _make_first_graph(
 ) -> dict[str, set[str]]:
     graph: dict[str, set[str]] = {}
     for rule in rules:
+        # note: a based rule parses the base rule's right hand side first
+        exp = rule.rhs if isinstance(rule, BasedRule) else rule.exp
         graph[rule.name] = {
-            rules[i].name for i in _callable_rule_ids(rule.exp, rule_index)
+            rules[i].name for i in _callable_rule_ids(exp, rule_index)
         }
 
     all_vertices: set[str] = set(graph.keys())
